@@ -86,10 +86,30 @@ func (r Ref) runFile(path string, extra ...string) (stdout, stderr []byte, err e
 		return nil
 	}
 	cmd.WaitDelay = 2 * time.Second
-	var so, se bytes.Buffer
-	cmd.Stdout = &so
-	cmd.Stderr = &se
+	// output goes to files, not pipes: workers forked by the parser may keep a
+	// pipe open after the parser itself has exited
+	n := atomic.AddInt64(&refSeq, 1)
+	outPath := filepath.Join(refScratch(), fmt.Sprintf("refout-%d-%d", os.Getpid(), n))
+	errPath := outPath + ".err"
+	fo, e1 := os.Create(outPath)
+	fe, e2 := os.Create(errPath)
+	if e1 != nil || e2 != nil {
+		return nil, nil, fmt.Errorf("scratch: %v %v", e1, e2)
+	}
+	defer os.Remove(outPath)
+	defer os.Remove(errPath)
+	cmd.Stdout = fo
+	cmd.Stderr = fe
 	err = cmd.Run()
+	fo.Close()
+	fe.Close()
+	var so, se bytes.Buffer
+	if d, rerr := os.ReadFile(outPath); rerr == nil {
+		so.Write(d)
+	}
+	if d, rerr := os.ReadFile(errPath); rerr == nil {
+		se.Write(d)
+	}
 	if ctx.Err() != nil {
 		if os.Getenv("VERIF_DEBUG") != "" {
 			data, _ := os.ReadFile(path)
